@@ -243,7 +243,8 @@ def c04(run):
     run.rule = ("cases = every complete DFA with <= 3 states over 2 letters (TLC-generated, 5898; all-final, none-final "
                 "and unreachable parts included), built through AutomatonBuilder in three styles under block "
                 "embeddings, then minimize(); seeded random DFAs with <= 12 states / <= 4 letters; automata compiled "
-                "from the C01 families; per case: language of result = language of input (product fixpoint), no two "
+                "from the C01 families; every second automaton build() returns for the C13 random call-sequence families; "
+                "regular large, deep-chain and differently-cut automata; per case: language of result = language of input (product fixpoint), no two "
                 "result states Nerode-equivalent, |result| = Myhill-Nerode index when all states are reachable, "
                 "initial/final/counter consistency; non-trivial = distinct record whose input has >= 2 states")
     run.assumptions = list(AUT_ASSUME)
@@ -259,6 +260,10 @@ def c04(run):
                  "Trace_Automata.cfg", ["C04:", "minimize", "compile/"], workers=workers(run), nontrivial=nt,
                  need={"compiled": lambda r: r.get("style") == 9, "big": lambda r: r.get("op") == "minimize" and len(r["before"]["final"]) >= 8},
                  timeout=3000)
+    # minimize() on the automata AutomatonBuilder::build returns for the C13 call-sequence families
+    out5, info5 = _drive(run, "builder", sub="random", extra=["--for", "C04"])
+    run.validate("builder_minimize", os.path.join(out5, "builder_minimize.ndjson"), "Trace_Automata", "Trace_Automata.cfg",
+                 ["C04:", "minimize"], workers=workers(run), nontrivial=nt, timeout=3000)
     # the refinement itself, step by step (hooks in minimizer.rs, spec Hopcroft.tla)
     hop_note = ("every behaviour of the Hopcroft state machine (every choice of splitter and of re-activated halves) on "
                 "every DFA of the scope ends in the Myhill-Nerode partition and never separates equivalent states")
